@@ -317,13 +317,13 @@ func keysOf(m map[string]bool) []string {
 var volatileClass = map[string]string{
 	"BaseApplication":                 "config",
 	"logger":                          "config",
-	"executor":                        "rebuilt",  // initState: GetExecutor per stored version
-	"statisticData":                   "config",   // observability only
-	"appDB":                           "config",   // handle
-	"eventsDB":                        "config",   // handle
-	"stateDeliver":                    "rebuilt",  // initState
-	"stateCheck":                      "rebuilt",  // initState
-	"height":                          "rebuilt",  // initState from appDB.GetLastHeight
+	"executor":                        "rebuilt",    // initState: GetExecutor per stored version
+	"statisticData":                   "config",     // observability only
+	"appDB":                           "config",     // handle
+	"eventsDB":                        "config",     // handle
+	"stateDeliver":                    "rebuilt",    // initState
+	"stateCheck":                      "rebuilt",    // initState
+	"height":                          "rebuilt",    // initState from appDB.GetLastHeight
 	"rewards":                         "blocklocal", // zeroed in BeginBlock
 	"lockValidators":                  "config",
 	"validatorsStatuses":              "blocklocal", // reassigned in BeginBlock
@@ -339,7 +339,7 @@ var volatileClass = map[string]string{
 	"cfg":                             "config",
 	"storages":                        "config",
 	"stopChan":                        "config",
-	"stopped":                         "config", // process-lifetime flag
+	"stopped":                         "config",  // process-lifetime flag
 	"grace":                           "rebuilt", // initState from stored versions
 	"knownUpdates":                    "config",
 	"stopOk":                          "config",
